@@ -28,6 +28,12 @@ CHECKS = {
    text="C01-style histories (held-op resolution, single-NI and all-NI flushes) are run under four configuration orders of hook registration vs network-instance creation (rib API and server options, runtime AddNetworkInstance). A consumer folds post-change notifications and must equal RIBContents in every NI after every step; resolved-entry notifications are counted exactly (awaited by goroutine state, not time), must contain/lack the announced key and must be unchanged at the end of the history.",
    note="Trusted: obs conversion via rib.Concrete*Proto for both sides of the comparison; goroutine-dump based quiescence for the asynchronous resolved-entry hook.",
    design="DESIGN.md §4 C16"),
+ "C08": dict(
+   technique="property-based testing with full decision-table enumeration at a generated flush point, against an explicit status table and the RIB relation model",
+   level="exploration",
+   text="For generated RIB contents (backup groups shared/missing/circular, cross-instance references) the complete decision table of Flush {target} x {election field} is enumerated against server election state (a learnt 128-bit id from a lattice, or none learnt with injected contents): every non-authorised or malformed cell must return the code and FlushResponseError reason gribi.proto assigns and change nothing (Get + hooks after each cell); one drawn authorised cell must answer OK, empty exactly its targets and leave counters consistent, and a generated epilogue of operations must behave as the model predicts.",
+   note="Trusted: the status table transcribed from gribi.proto comments (zero id: reason fixed, code INVALID_ARGUMENT or FAILED_PRECONDITION accepted); reference model; hooks. Authorised cells are sampled per RIB, rejected cells are all enumerated.",
+   design="DESIGN.md §4 C08"),
 }
 NOT_YET = {}
 
